@@ -7,6 +7,7 @@ RULE = ('kernel-level cases: random scenes (P<=8 patches, D<=3 slots, B<=3 bands
         'orders 0..5) with per-leg delays drawn to straddle the histogram end (0,1,S-1,S,S+3); '
         'non-trivial = has visible pairs, order>=1 and a non-zero result; distinct = different '
         '(sizes, pair list, delay bins)')
+RULE = RULE + '; object level: direct sound for receivers whose travel-time bin is inside / the last / the first beyond / far beyond the histogram'
 ASSUMPTIONS = ['theorems are about the Lean model at real numbers; the code runs float64',
                'model tied to /repo by kernel-level differential runs (EXACT class for the exchange, '
                'zero-pattern exact + 1e-12 relative for the receiver kernel) and by the generated constants']
